@@ -332,7 +332,7 @@ func H_C08_feed() {
 	setMerge(true)
 	K := 4
 	if tierThorough() {
-		K = 6
+		K = 9
 	}
 	o, sink := vNewObserver(vObsConfig(), 3, ^uint64(0), nil)
 	F := nondetU64("F")
